@@ -21,7 +21,7 @@ RULE = ('memory-stress templates (VLAs of int/byte/bool/string with lengths -327
         'literals whose elements call allocating functions; recursion with local arrays; every write routine with arrays at the top '
         'of the array region; by-reference mutation) + random "memory" profile and time-travel programs; each swept over stack sizes '
         'S*-6..S*+6 (S* = smallest stack reproducing the generous outcome, by binary search) and a ladder; a case is one '
-        '(program, args, word, stack); non-trivial = the run ended in stack_overflow or ran at a stack within 6 words of S*; '
+        '(program, args, word, stack); non-trivial = the run ended in stack_overflow or ran at a stack within 6 words of S*; the 448 value-capture idioms of gen/idioms.py (an index read before a call that moves it out of range) run under M-SAN at a generous stack; '
         'distinct by hash of (source, args, word, stack)')
 ASSUMPTIONS = common.ISA_ASSUMPTIONS[:3] + [
     'the stack size only enters the output through the `.zero <n>w` line (asserted on every S* by recompiling)',
@@ -43,6 +43,8 @@ def plan(tier, seed):
             specs.append({'kind': 'templates', 'seed': seed, 'part': i, 'parts': 24, 'words': [2, 3, 4], 'stride': 1})
         for s in common.shard_seeds(seed, 40):
             specs.append({'kind': 'gen', 'seed': s, 'count': 12, 'words': [2, 3, 4]})
+    parts = 4 if tier == 'quick' else 12
+    specs += [{'kind': 'idioms', 'part': i, 'parts': parts, 'tier': tier} for i in range(parts)]
     return specs
 
 
@@ -157,8 +159,44 @@ def sweep(res, src, args, word, tag, time_travel):
                                'generous_outcome': G.brief(), 'sizes_run': sizes[:40]})
 
 
+def observe(res, src, args, word, tag):
+    """one run at a generous stack under M-SAN (no sweep): for programs whose risk is a misdirected element access"""
+    r = diff.compile_and_run(src, args, word=word, stack=diff.GENEROUS_STACK, max_steps=MAX_STEPS)
+    res['evaluations'] += 1
+    case = diff.case_dict(src, args, word, diff.GENEROUS_STACK, gen=tag)
+    if r.kind != 'ok':
+        runner.fail(res, {'reject': 'M-EXC', 'internal': 'M-EXC', 'asm': 'M-ASM'}[r.kind], f'{tag}: {r.kind}: {r.detail}', case)
+        return
+    o = r.outcome
+    common.side_observe(res, r)
+    san = [x for x in o.reports if x[1] == 'san']
+    if san:
+        runner.fail(res, 'M-SAN', f'{san[0][2]} (asm line {san[0][4]}: {r.lines[san[0][4] - 1].decode("latin-1").strip() if san[0][4] > 0 else "?"})',
+                    case, observed=o.brief())
+    elif o.klass in ('TRAP', 'HALT'):
+        runner.fail(res, 'M-SAN', f'{o.klass}: {o.trap or "committed halt"}', case, observed=o.brief())
+    else:
+        runner.count(res, 'idiom_runs_clean')
+        res['nontrivial'].append(runner.case_id(src, args, word, 'idiom'))
+
+
 def run_shard(spec):
     res = runner.new_result()
+    if spec['kind'] == 'idioms':
+        from ..gen import idioms
+        for k, (tag, prog) in enumerate(idioms.capture_programs()):
+            if k % spec['parts'] != spec['part']:
+                continue
+            src = A.render(prog)
+            if spec['tier'] == 'quick':
+                observe(res, src, idioms.CAPTURE_ARGS[k % 2], 2 + (k // 2) % 3, tag)
+            else:
+                for args in idioms.CAPTURE_ARGS:
+                    for word in (2, 3, 4):
+                        observe(res, src, args, word, tag)
+                if (k // spec['parts']) % 6 == 0:
+                    sweep(res, src, idioms.CAPTURE_ARGS[0], 2, tag, False)
+        return res
     if spec['kind'] == 'templates':
         cs = memprogs.cases(spec['seed'], 0)
         for i, (tag, src, args) in enumerate(cs):
